@@ -14,6 +14,10 @@ open MakoModel.Lexer MakoModel.Basic
 /-- the matcher cascade modelled in `Lexer.matchers` is the cascade of `Lexer.parse` (regenerated from /repo) -/
 theorem matcher_order_is_modelled : Generated.LexerCfg.matcherOrder = matcherNames := by decide
 
+/-- `parse` measures the text it lexes: `self.textlength = len(self.text)` comes after the preprocessor loop and
+    before the main loop (regenerated from /repo; moving the assignment breaks this obligation) -/
+theorem textlength_is_lexed_length : Generated.LexerCfg.textlengthIsLexedLength = true := by decide
+
 /-! ## termination and progress -/
 
 /-- Every pass through the matcher cascade that continues the loop strictly advances the cursor and keeps
@@ -93,6 +97,17 @@ theorem lex_accounts (s : Str) (hok : (lex Cfg.current s).outcome = .ok) :
     ((lex Cfg.current s).toks.map (Token.raw s)).flatten = s
     ∧ ∀ t ∈ (lex Cfg.current s).toks, t.payload ≠ .skipped :=
   lex_accounts_fixed Cfg.current rfl rfl s hok
+
+/-- **With preprocessors**: the tokens account for the whole *preprocessed* text – whatever the preprocessors do
+    to its length. -/
+theorem parse_accounts_preprocessed (ps : List (Str → Str)) (s : Str)
+    (hok : (parseWith Cfg.current ps s).outcome = .ok) :
+    ((parseWith Cfg.current ps s).toks.map (Token.raw (ps.foldl (fun t p => p t) s))).flatten
+      = ps.foldl (fun t p => p t) s :=
+  (lex_accounts _ hok).1
+
+example : (parseWith Cfg.current [fun t => lit "banner\n" ++ t, fun t => t ++ lit "\ntail"] (lit "a${x}")).toks.length = 3 := by
+  decide +kernel
 
 /-- the regenerated configuration is the fixed one (this is what makes `lex_accounts` unconditional; reverting
     either patch in /repo flips a flag and breaks this obligation and the proof above) -/
@@ -232,5 +247,64 @@ theorem render_literal (s : List Char) (hpl : Plain s = true) (k : Nat) (o : Opt
 
 example : Plain (lit "a < b & c\r\n  50% of ${nothing\n# one\n") = false := by decide +kernel
 example : Plain (lit "a < b & c\r\n  50 % of {nothing}\n# one\n\u00e9\u4e16") = true := by decide +kernel
+
+/-! ## the documented escapes, end to end (helpers in `Codegen/RenderLiteral.lean`) -/
+
+open MakoModel.Codegen MakoModel.Target in
+/-- **Token level, all documented escapes.**  For every token list made only of text tokens (literal text, the
+    text a line-leading `%%` stands for, the body of `<%text>`) and of the tokens the code generator is silent about
+    (backslash-newline, `##` lines, `<%doc>` sections, the tags of an unfiltered `<%text>`): the rendered output is
+    the concatenation of the contents of the text tokens, in order – nothing of the silent tokens, each text once.
+    Every crash point, every `error_handler` / `format_exceptions` setting, every fuel from `toks.length + 9` on. -/
+theorem render_escape_tokens (toks : List Token) (h : EscapeOnly toks = true)
+    (ts : List (Tmpl × Option Bool)) (ieh : Option Bool) (k : Nat) (o : Opts) (fuel : Nat)
+    (hf : toks.length + 9 ≤ fuel) :
+    ∃ t, tmplOfTokens toks = some t ∧
+      (render (progOf ((t, ieh) :: ts) k) o fuel).1 = .val [] ∧
+      (render (progOf ((t, ieh) :: ts) k) o fuel).2.1 = textsOf toks := by
+  obtain ⟨t, ht⟩ := tmplOfTokens_of_escapeOnly toks h
+  exact ⟨t, ht, render_text_tokens_core toks t ht ts ieh k o fuel hf⟩
+
+open MakoModel.Codegen in
+/-- the lexer's tokens for `a\⏎<%doc>d</%doc>x⏎  %%b⏎## c⏎<%text>${x}</%text>` and what is rendered -/
+example : (lex Cfg.current (lit "a\\\n<%doc>d</%doc>x\n  %%b\n## c\n<%text>${x}</%text>")).outcome = .ok ∧
+    EscapeOnly (lex Cfg.current (lit "a\\\n<%doc>d</%doc>x\n  %%b\n## c\n<%text>${x}</%text>")).toks = true ∧
+    textsOf (lex Cfg.current (lit "a\\\n<%doc>d</%doc>x\n  %%b\n## c\n<%text>${x}</%text>")).toks
+      = lit "ax\n  %b\n${x}" := by decide +kernel
+
+open MakoModel.Codegen MakoModel.Target in
+/-- **Source level (PARTIAL).**  For every source `s` that the lexer accepts and whose tokens are only of the kinds
+    above, the rendered output `out` is related to `s` as follows: the raw spans of the tokens tile `s` in order
+    (`lex_accounts`), `out` is the concatenation of the *contributions* of the spans in the same order, and every
+    span contributes one of (`text_fidelity`):
+    itself, verbatim; itself without its trailing backslash-newline / backslash-CR-LF; a line-leading
+    `ws %% %ᵏ` as `ws % %ᵏ`; nothing, when it is a bare backslash-newline, a whole `<%doc>…</%doc>`, a comment
+    starting at a line start, or a `<%text>` / `</%text>` tag.
+
+    PARTIAL – this is *soundness* of the escapes (nothing but the documented deletions/replacements happens to any
+    character, order is kept, each character is used once); it is not the equality with an independent
+    `Spec.expected : Str → Str`.  That needs facts the lexer lemmas (`Faithful`) do not record: that a verbatim
+    text span contains no further escape, that a `##` comment span is exactly one line with its terminator, that
+    the spans of the silent tag tokens are literally `<%text>` and `</%text>`.  The check compares the pipeline
+    with an independent expectation on constructed sources instead (stream `corr.escapes`). -/
+theorem render_documented_escapes_partial (s : List Char) (hok : (lex Cfg.current s).outcome = .ok)
+    (hesc : EscapeOnly (lex Cfg.current s).toks = true) (k : Nat) (o : Opts) (fuel : Nat)
+    (hf : (lex Cfg.current s).toks.length + 9 ≤ fuel) :
+    ∃ t, tmplOfTokens (lex Cfg.current s).toks = some t ∧
+      (render (progOf [(t, none)] k) o fuel).1 = .val [] ∧
+      (render (progOf [(t, none)] k) o fuel).2.1 = textsOf (lex Cfg.current s).toks ∧
+      ((lex Cfg.current s).toks.map (Token.raw s)).flatten = s ∧
+      ∀ tok ∈ (lex Cfg.current s).toks,
+        (∀ c, tok.payload = .text c →
+            c = tok.raw s ∨ tok.raw s = c ++ lit "\\\n" ∨ tok.raw s = c ++ lit "\\\r\n" ∨
+            ∃ ws n, tok.raw s = ws ++ lit "%%" ++ List.replicate n '%' ∧ c = ws ++ '%' :: List.replicate n '%'
+              ∧ atLineStart s tok.start = true ∧ ∀ x ∈ ws, isSpace x = true)
+        ∧ (tok.payload = .cont → tok.raw s = lit "\\\n" ∨ tok.raw s = lit "\\\r\n")
+        ∧ (∀ c, tok.payload = .comment c →
+            tok.raw s = lit "<%doc>" ++ c ++ lit "</%doc>" ∨ atLineStart s tok.start = true) := by
+  obtain ⟨t, ht, h1, h2⟩ := render_escape_tokens (lex Cfg.current s).toks hesc [] none k o fuel hf
+  refine ⟨t, ht, h1, h2, (lex_accounts s hok).1, fun tok m => ?_⟩
+  have := text_fidelity Cfg.current s hok tok m
+  exact ⟨this.1, this.2.1, this.2.2.1⟩
 
 end MakoModel.C01
